@@ -1,2 +1,27 @@
+"""C01 obligations for combinators, structured layers and flow bijections (zoo2)."""
+COMB_QUICK = ["chain_ae", "chain_cond", "chain_nested", "scan3", "vmap_mapped", "vmap_bcast", "vmap_c0", "vmap_c1", "vmap_cm1",
+              "concat0", "concatm1", "concat_r2_0", "concat_r2_m1", "stack0", "stack1", "stackm1", "stack_r2_m1", "stack_r2_1", "stack_r2_m2",
+              "partial_int", "partial_slice", "partial_intarr", "partial_boolarr", "invert_affine", "invert_exp", "reshape", "embed",
+              "coupling3", "coupling2c"]
+FWD_ONLY_QUICK = ["maf3"]          # transform(inverse(y)) of the sequential inverse: thorough tier
+COMB_THOROUGH = COMB_QUICK + ["coupling3d2"]
+FWD_ONLY_THOROUGH = ["maf3", "maf2c", "maf3d0"]
+
+
+def ob_roundtrip_dir(spec_name, direction):
+    from .. import zoo
+    from ..bij import ob_roundtrip
+    spec = zoo.get(spec_name)
+    out = []
+    for c in (spec.x_cases() if direction == "fwd" else spec.y_cases()):
+        out += ob_roundtrip(spec_name, direction, c.name)
+    return out
+
+
 def obligations(tier, seed):
-    return []
+    tasks = []
+    for nm in (COMB_QUICK if tier == "quick" else COMB_THOROUGH):
+        tasks.append(dict(name=nm, func="c01:ob_roundtrip_all", kwargs=dict(spec_name=nm), cost=3.0 if nm.startswith("coupling") else 1.0))
+    for nm in (FWD_ONLY_QUICK if tier == "quick" else FWD_ONLY_THOROUGH):
+        tasks.append(dict(name=nm + "/fwd", func="c01x:ob_roundtrip_dir", kwargs=dict(spec_name=nm, direction="fwd"), cost=6.0))
+    return tasks
